@@ -534,6 +534,16 @@ class C09(Prop):
                     if o is not None and o not in ref:
                         nxt.append(o)
                 todo, depth = nxt, depth + 1
+            # cross-check of the reference itself (it is what the tool PRINTs, i.e. it passes through the tool's own
+            # output path): for a text whose last line is unterminated and is not an import, the rewriter's output
+            # is its output on the terminated text minus that terminator (C01: a final newline is neither added nor
+            # removed).  A reference that disagrees is itself evidence of the failure.
+            refnl = {}
+            for t in list(ref):
+                if t and not t.endswith("\n") and not t.rsplit("\n", 1)[-1].lstrip().startswith(("import ", "from ")) \
+                        and t.isascii():
+                    o2 = ref_rewrite(case["tool"], case.get("extra", []), t + "\n", scratch)
+                    refnl[t] = o2
             argv = argv_of(case, root)
             faults = case.get("faults") or {}
             write_faults = {os.path.join(root, n): k for n, k in (faults.get("write") or {}).items()}
@@ -564,6 +574,7 @@ class C09(Prop):
             stray = sorted(n for n in listing if before[n][0] == "absent")
             obs = dict(root=root, names=names, facts=facts, expanded=expanded, before=before, after=after,
                        ref=[[k, v] for k, v in sorted(ref.items(), key=lambda kv: kv[0])], stray=stray,
+                       refnl=[[k, v] for k, v in sorted(refnl.items(), key=lambda kv: kv[0])],
                        rc=r["rc"], msg=r["msg"], crash=r["crash"], out=r["out"], err=r["err"],
                        rewrites=r["rewrites"], fdout_len=r["fdout_len"], fdout=r["fdout"][:2000],
                        writes=[[rel(root, w[0]), w[1]] for w in r["writes"]], pid=os.getpid())
@@ -639,6 +650,11 @@ class C09(Prop):
         if refused and obs["rc"] == 0:
             F("run refused (unsafe file name) but exit status 0")
 
+        for t, o2 in obs.get("refnl", []):
+            o = ref.get(t)
+            if o is not None and o2 is not None and o2.endswith("\n") and o != o2[:-1]:
+                F("the tool's output for a file without final newline is not its output for the terminated file minus the "
+                  "terminator (IFCHANGED / REPLACE then act on a changed text)", text=t[:200], out=o[:200], out_terminated=o2[:200])
         # ---- who may be written ---------------------------------------------
         auth = collections.defaultdict(list)
         link_args = [a for a in E if facts[a]["islink"]]
